@@ -11,9 +11,10 @@ namespace SalsaVerif.Proofs.CycleRev
 open SalsaVerif.Model
 open SalsaVerif.Model.CycleRev
 
-/-- no `add` anywhere: the program lies in the language of `Model/Cycle.lean`. -/
+/-- no `add` and no `gate` anywhere: the program lies in the language of `Model/Cycle.lean`. -/
 def noAddE : Expr → Bool
   | .add _ _ => false
+  | .gate _ _ => false
   | .union a b => noAddE a && noAddE b
   | .inter a b => noAddE a && noAddE b
   | .ite _ a b => noAddE a && noAddE b
@@ -50,6 +51,15 @@ def staleFinalP : Prog := ⟨[
 
 /-- get 2; write input 0 := 3 (the cycle appears); get 0 -/
 def staleFinalOps : List Op := [.get 2, .set 0 3 none, .get 0]
+
+/-- a gated program (the shape of `gen_gated_nested_case`): `q0 = i0 ∪ q1`,
+    `q1 = i1 ∪ {0} ∪ gate q0 (gate q1 i2)`: the inner query calls the outer one, and then itself,
+    only once their values are odd — `q1` becomes a nested self-referential head in a later
+    iteration of `q0`. -/
+def gatedP : Prog := ⟨[
+  ⟨.fixpoint false, .union (.input 0) (.call 1)⟩,
+  ⟨.fixpoint false,
+    .union (.union (.input 1) (.const 1)) (.gate (.call 0) (.gate (.call 1) (.input 2)))⟩]⟩
 
 /-! ### the recorded findings as recorded (corpus/C12/kf2-stale-participant.ops,
    corpus/C13/kf1-fallback-history.ops) -/
